@@ -22,21 +22,21 @@ theorem pi_other (x : Item) (hw : wfItem x = true) : PI x := by
   | addendum id ts doc => exact pi_addendum id ts doc hw
   | lexrule id a pats ts doc => exact pi_lexrule id a pats ts doc hw
   | letterset var chars =>
-    refine ⟨0, fun m hm n cur stack R its cs hstep hrec => ?_⟩
+    intro m hm n cur stack R its cs hstep hrec
     simp only [envStep, Option.some.injEq] at hstep
     subst hstep
     simp only [] at hrec
     simp only [toksItem, List.cons_append, List.nil_append, parseItems,
       parseMorph_letterset var chars (by simpa [wfItem] using hw), hrec, canonItem]
   | wildcard var chars =>
-    refine ⟨0, fun m hm n cur stack R its cs hstep hrec => ?_⟩
+    intro m hm n cur stack R its cs hstep hrec
     simp only [envStep, Option.some.injEq] at hstep
     subst hstep
     simp only [] at hrec
     simp only [toksItem, List.cons_append, List.nil_append, parseItems,
       parseMorph_wildcard var chars (by simpa [wfItem] using hw), hrec, canonItem]
   | beginEnv inst status =>
-    refine ⟨0, fun m hm n cur stack R its cs hstep hrec => ?_⟩
+    intro m hm n cur stack R its cs hstep hrec
     simp only [envStep, Option.some.injEq] at hstep
     subst hstep
     simp only [] at hrec
@@ -59,7 +59,7 @@ theorem pi_other (x : Item) (hw : wfItem x = true) : PI x := by
         rw [parseItems]
         simp only [envTypeText_false, hne, if_false, hrec, canonItem]
   | endEnv inst =>
-    refine ⟨0, fun m hm n cur stack R its cs hstep hrec => ?_⟩
+    intro m hm n cur stack R its cs hstep hrec
     simp only [envStep] at hstep
     split at hstep
     · rename_i hcur
@@ -80,42 +80,61 @@ theorem pi_other (x : Item) (hw : wfItem x = true) : PI x := by
           simp [envTypeText_true, text_envtype, h1.symm, hrec, canonItem]
     · cases hstep
   | include_ v =>
-    refine ⟨0, fun m hm n cur stack R its cs hstep hrec => ?_⟩
+    intro m hm n cur stack R its cs hstep hrec
     simp only [envStep, Option.some.injEq] at hstep
     subst hstep
     simp only [] at hrec
     simp [toksItem, parseItems, hrec, canonItem]
   | lcomment c =>
-    refine ⟨0, fun m hm n cur stack R its cs hstep hrec => ?_⟩
+    intro m hm n cur stack R its cs hstep hrec
     simp only [envStep, Option.some.injEq] at hstep
     subst hstep
     simp only [] at hrec
     simp [toksItem, parseItems, hrec, canonItem]
   | bcomment c =>
-    refine ⟨0, fun m hm n cur stack R its cs hstep hrec => ?_⟩
+    intro m hm n cur stack R its cs hstep hrec
     simp only [envStep, Option.some.injEq] at hstep
     subst hstep
     simp only [] at hrec
     simp [toksItem, parseItems, hrec, canonItem]
 
+theorem toksItem_pos (x : Item) : 1 ≤ (toksItem x).length := by
+  cases x <;> simp [toksItem]
+
 /-- files: any sequence of well-formed items whose environments are properly nested (from the
-state `cur`/`stack`) is parsed back, item by item, to the canonical items. -/
+state `cur`/`stack`) is parsed back, item by item, to the canonical items — with any item budget
+`n ≥ number of items` and any definition fuel `m ≥ 6 · number of tokens`. -/
 theorem parseItems_toks : ∀ (xs : List Item) (cur : Option Bool) (stack : List (Option Bool)),
     (∀ x ∈ xs, wfItem x = true) → envOK cur stack xs = true →
-    ∃ n0 m0, ∀ n m, n0 ≤ n → m0 ≤ m →
+    ∀ n m, xs.length ≤ n → 6 * (xs.flatMap toksItem).length ≤ m →
       parseItems n m cur stack (xs.flatMap toksItem) = .ok (xs.map canonItem)
-  | [], cur, stack, _, _ => ⟨0, 0, fun n m _ _ => by cases n <;> simp [parseItems]⟩
+  | [], cur, stack, _, _ => fun n m _ _ => by cases n <;> simp [parseItems]
   | x :: xs, cur, stack, hw, henv => by
+    intro n m hn hm
     simp only [envOK] at henv
     cases hstep : envStep cur stack x with
     | none => simp [hstep] at henv
     | some cs =>
       simp only [hstep] at henv
-      obtain ⟨n1, m1, ih⟩ := parseItems_toks xs cs.1 cs.2 (fun y hy => hw y (List.mem_cons_of_mem _ hy)) henv
-      obtain ⟨m2, hx⟩ := pi_other x (hw x (List.mem_cons_self ..))
-      refine ⟨n1 + 1, m1 + m2, fun n m hn hm => ?_⟩
+      simp only [List.flatMap_cons, List.length_append, List.length_cons] at hn hm
       obtain ⟨n', rfl⟩ : ∃ n', n = n' + 1 := ⟨n - 1, by omega⟩
+      have ih := parseItems_toks xs cs.1 cs.2 (fun y hy => hw y (List.mem_cons_of_mem _ hy)) henv n' m
+        (by omega) (by omega)
       simp only [List.flatMap_cons, List.map_cons]
-      exact hx m (by omega) n' cur stack _ _ cs hstep (ih n' m (by omega) (by omega))
+      exact pi_other x (hw x (List.mem_cons_self ..)) m (by omega) n' cur stack _ _ cs hstep ih
+
+theorem length_le_flatMap : ∀ xs : List Item, xs.length ≤ (xs.flatMap toksItem).length
+  | [] => by simp
+  | x :: xs => by
+    have := toksItem_pos x
+    have := length_le_flatMap xs
+    simp only [List.flatMap_cons, List.length_append, List.length_cons]; omega
+
+/-- the driver's parser (`parseFile`: item budget `|tokens|+1`, definition fuel `6·|tokens|+10`) -/
+theorem parseFile_toks (xs : List Item) (hw : ∀ x ∈ xs, wfItem x = true) (henv : envOK none [] xs = true) :
+    parseFile (xs.flatMap toksItem) = .ok (xs.map canonItem) := by
+  unfold parseFile
+  have := length_le_flatMap xs
+  exact parseItems_toks xs none [] hw henv _ _ (by omega) (by omega)
 
 end Verif.C15
